@@ -4,6 +4,7 @@ import (
 	"encoding/json"
 	"fmt"
 	"os"
+	"reflect"
 	"runtime"
 	"strings"
 	"sync"
@@ -82,6 +83,8 @@ func c08RaceReport() string {
 	}
 	return ""
 }
+
+var c08Fresh int
 
 type c08Result struct {
 	show string
@@ -214,6 +217,25 @@ func judgeC08(c *core.Case, cfg *core.Config) core.Verdict {
 					_, _ = run(p, envs[k%len(envs)])
 				}
 			}(k)
+		}
+		// first-time compilations against a struct type this process has never seen, all at once (anything the
+		// library memoises per environment type is filled concurrently here)
+		c08Fresh++
+		fresh := reflect.New(reflect.StructOf([]reflect.StructField{
+			{Name: fmt.Sprintf("Fresh%d", c08Fresh), Type: reflect.TypeOf(0)},
+			{Name: "Name", Type: reflect.TypeOf("")},
+			{Name: "Items", Type: reflect.TypeOf([]int{})},
+		})).Elem().Interface()
+		freshSrc := fmt.Sprintf("Fresh%d + len(Items) > 0 or Name == \"x\"", c08Fresh)
+		for k := 0; k < b.Compiles; k++ {
+			wg.Add(1)
+			go func() {
+				defer wg.Done()
+				<-start
+				if p, err := compile(freshSrc, expr.Env(fresh)); err == nil {
+					_, _ = run(p, fresh)
+				}
+			}()
 		}
 		close(start)
 		wg.Wait()
